@@ -80,6 +80,13 @@ impl World {
         *self.store.fault.lock().unwrap() = None;
     }
 
+    /// fault on the second object `flush_metadata` writes; a short pause makes sure that write is not
+    /// skipped (`store_metadata` skips it when nothing changed within the same millisecond)
+    pub fn arm_fault2(&mut self, k: usize) {
+        *self.store.fault.lock().unwrap() = Some((format!("{}/storage_meta.cbor", self.cfg.primary), k));
+        std::thread::sleep(Duration::from_millis(3));
+    }
+
     pub fn arm_fault(&mut self, k: usize) {
         *self.store.fault.lock().unwrap() = Some((format!("{}/db_meta.cbor", self.cfg.primary), k));
     }
